@@ -408,40 +408,31 @@ def _check_decorator_passthrough(ctx):
     publics = [f for f in prog.package_funcs() if f.module is dm and f.parent is None and f.name.startswith("document_")]
     n = 0
     for pub in publics:
-        rets = [st for st in pub.body if isinstance(st, ast.Return)]
-        if len(rets) != 1 or not isinstance(rets[0].value, ast.Call) or not isinstance(rets[0].value.func, ast.Name):
-            raise AnalysisError(f"{pub.qualname}: expected a single `return _document_*(...)`")
-        inner = prog.funcs.get(f"{dm.name}.{rets[0].value.func.id}")
-        if inner is None:
-            raise AnalysisError(f"{pub.qualname}: cannot resolve {rets[0].value.func.id}")
-        decos = [st for st in inner.body if isinstance(st, ast.FunctionDef)]
-        if len(decos) != 1:
-            raise AnalysisError(f"{inner.qualname}: expected one inner decorator function")
-        deco = decos[0]
         lists = [p_ for p_ in pub.posparams if p_ in DECLARED]
         for missing in (False, True):
             given = {}
             for i, p_ in enumerate(lists):
                 given[p_] = None if (missing and i > 0) else [f"{p_}_x", f"{p_}_y"]
-            env = {p_: None for p_ in pub.posparams}
-            env.update(given)
-            env[pub.posparams[0]] = "FMT"
-            ev = AccessorEval(prog, None)
+            ev = AccessorEval(prog, None, limit=4000)
             ev.module = dm
+            func = Rec(None)
+            deco = pub.node
+            inner = pub
             try:
-                ev._block([st for st in pub.body if not isinstance(st, ast.Return) and not (isinstance(st, ast.Expr) and isinstance(st.value, ast.Constant))], env)
-                call = rets[0].value
-                args = [ev._eval(a, env) for a in call.args]
-                kw = {k.arg: ev._eval(k.value, env) for k in call.keywords}
-                ienv = {p_: None for p_ in inner.posparams}
-                ienv.update(dict(zip(inner.posparams, args)))
-                ienv.update(kw)
-                ev._block([st for st in inner.body if not isinstance(st, (ast.FunctionDef, ast.Return)) and not (isinstance(st, ast.Expr) and isinstance(st.value, ast.Constant))], ienv)
-                func = Rec(None)
-                denv = dict(ienv)
-                denv[deco.args.args[0].arg] = func
-                stores = [st for st in ast.walk(deco) if isinstance(st, ast.Assign) and len(st.targets) == 1 and isinstance(st.targets[0], ast.Attribute) and isinstance(st.targets[0].value, ast.Name) and st.targets[0].value.id == deco.args.args[0].arg and st.targets[0].attr in DECLARED]
-                ev._block(stores, denv)
+                # the factory as a whole: its value is the decorator (a closure); the decorator applied to a model
+                # function object; the declared lists are then read off that object
+                kw = {p_: v for p_, v in given.items() if v is not None}
+                deco_value = ev.run_free(pub, ["FMT"], kw)
+                if not (isinstance(deco_value, tuple) and len(deco_value) == 2 and deco_value[0] == "<function>"):
+                    ctx.violate("R7", f"{pub.name} does not return a decorator", pub, pub.node, construct=f"{pub.name}: no decorator")
+                    continue
+                g_ = getattr(deco_value[1], "func", None) if callable(deco_value[1]) else deco_value[1]
+                if g_ is not None:
+                    inner, deco = (g_.parent or g_), g_.node
+                got_func = deco_value[1]([func], {}) if callable(deco_value[1]) else ev.run_free(deco_value[1], [func], {})
+                if got_func is not func:
+                    ctx.violate("R7", f"{pub.name}: the decorator does not return the function it decorates", inner, deco, construct=f"{pub.name}: decorator result")
+                    continue
             except Raised as exc:
                 ctx.violate("R7", f"{pub.name}: attaching the declared lists raises {exc.args[0]}", pub, pub.node, construct=f"{pub.name}: raises")
                 continue
